@@ -372,13 +372,10 @@ func (g *simGen) stmts() []*stmt {
 	case 11:
 		return []*stmt{{k: sCallStmt, exps: []*expr{g.callExprNoSelect()}}}
 	case 12:
-		lvl := 1
-		if g.t.Chance(1, 5) {
-			lvl = 0
-		}
+		lvl := []int{1, 1, 1, 0, 2, 2}[g.t.Choose(6)]
 		return []*stmt{{k: sError, exps: []*expr{g.errVal()}, level: lvl}}
 	case 13:
-		return []*stmt{{k: sRtErr, n: int64(g.t.Choose(11))}}
+		return []*stmt{{k: sRtErr, n: int64(g.t.Choose(18))}}
 	case 15:
 		// K = 0; [local x <close> = mkc()]; ::top::; K = K + 1; do body end; if K < n then goto top end
 		// (nothing is declared in this block between the label and the goto)
